@@ -21,7 +21,7 @@ CHECKS = {
                       'backend is sequential, so the simulation contributes the fault dimension only (borderline claim).',
         'level_note': 'Trusted base: bash executes generated scripts as written; <= 8 jobs; bash jobs only (no PythonJob, no '
                       'docker image, no input files / write_output).',
-        'scenarios': [{'module': 'worlds.dsl.pipeline', 'quick': 5000, 'thorough': 40000}],
+        'scenarios': [{'module': 'worlds.dsl.pipeline', 'quick': 5000, 'thorough': 30000}],
         'expected_probes': ['resource_edge', 'explicit_edge', 'always_run_after_failure', 'cycle_rejected', 'two_failures',
                             'resource_cycle', 'self_cycle', 'created_before_its_dependency',
                             'skipped_because_dependency_skipped', 'always_run_shields_descendants',
